@@ -24,10 +24,11 @@ pub fn header_variants(ctx: &Ctx) -> Vec<(u8, u16, u128)> {
 }
 
 pub fn run(ctx: &Ctx) -> Report {
-    let (n_full, n_small) = ctx.tier.pick((4, 5), (5, 7));
+    let (n_full, n_small) = ctx.tier.pick((5, 6), (6, 7));
     let sk = engine_in::skeletons(n_full, n_small);
     let hv = header_variants(ctx);
     let n_sk = sk.len();
+    let heavy_depth = ctx.tier.pick(3usize, 4usize);
     let acc = sk
         .par_iter()
         .enumerate()
@@ -46,6 +47,12 @@ pub fn run(ctx: &Ctx) -> Report {
                         let case = Case::new("parse", b).text(&[tag]);
                         judge_guarded(judge, &case, &mut acc);
                     });
+                    if toks.len() <= heavy_depth {
+                        engine_in::heavy_faults(&buf, &mut |tag, b| {
+                            let case = Case::new("parse", b).text(&[tag]);
+                            judge_guarded(judge, &case, &mut acc);
+                        });
+                    }
                 }
             }
             acc
@@ -69,7 +76,7 @@ pub fn run(ctx: &Ctx) -> Report {
     Report {
         acc,
         exhaustive: true,
-        rule: "all attribute skeletons over {OPT,SW x len 0/1/3/4, MI, MI256, FP ok, FP bad} to the stated depth x 3 header variants; on each: every cut point, header-length perturbation, excess variant, per-attribute length perturbation, top bits, every cookie bit, non-zero padding; plus every 16-bit attribute type (value length 0 and 5) at each position of 10 templates around MI / MI256 / FP; distinct_nontrivial counts fault-free skeleton buffers".into(),
+        rule: "all attribute skeletons over {OPT,SW x len 0/1/3/4, MI, MI256, FP ok, FP bad} to the stated depth x 3 header variants; on each: every cut point, header-length perturbation, excess variant, per-attribute length perturbation, top bits, every cookie bit, non-zero padding; on skeletons of <= 3 attributes (thorough 4) also every value of every type/length byte of the header and of each attribute header and every single-bit flip of buffers up to 64 bytes; plus every 16-bit attribute type (value length 0 and 5) at each position of 10 templates around MI / MI256 / FP; distinct_nontrivial counts fault-free skeleton buffers".into(),
         bounds: json!({"skeletons": n_sk, "full_alphabet_depth": n_full, "small_alphabet_depth": n_small, "header_variants": 3, "faults": "single"}),
         assumptions: vec!["buffers outside the grammar alphabets and with two or more independent faults are not explored".into()],
         ..Default::default()
